@@ -21,6 +21,17 @@ let parse_sched (s : string) : (int * char * string) list =
 
 let events_at sched j = List.filter (fun (s, _, _) -> s = j) sched
 
+(* Real sleeps last AT LEAST their nominal 100 ms; on a busy machine every sleep of a chain ends some ms late and the
+   lateness adds up, so a wake-up can fall behind the next scripted event.  The model is therefore also run with
+   longer sleeps (the same for every sleep of the run) and has to explain the observation for one of them. *)
+let pause_stretches = List.init 31 (fun i -> i)       (* extra ms per sleep *)
+(* ... and the goroutine that makes the call under test may itself start late: the call is also tried up to 60 ms
+   after its slot (only when no stretch alone explains the observation) *)
+let pause_variants =
+  List.map (fun d -> (d, 0)) pause_stretches
+  @ List.concat_map (fun cl -> List.map (fun d -> (d, cl)) [0; 5; 10; 20]) [10; 20; 30; 40; 50; 60]
+let pause_stretch cf0 d = { cf0 with cSL = nat_of_int (int_of_nat cf0.cSL + d); cGL = nat_of_int (int_of_nat cf0.cGL + d) }
+
 let () =
   register "pm_classify" (function [e; l] ->
       (match classify (bytes_of_hex e) (bytes_of_hex l) with
@@ -29,75 +40,93 @@ let () =
   register "pm_keepalive" (function [t] -> hex_of_bytes (keepalive_line (bytes_of_hex t)) | _ -> "?args");
   register "pm_reader" (function [u; proto; tmo; expect; horizon; sched; measured; tol] ->
       let u = int_of_string u in
-      let cf = cfg_of (n_of_int u) (z_of_int (int_of_string tmo)) (n_of_int (int_of_string proto)) in
       let cls = classify (bytes_of_hex expect) in
       let sched = parse_sched sched in
-      let st = ref (rinit : n list rstate) in
-      let res = ref None in
-      let feed j e =
-        if !res = None then begin
-          let (s', o) = rstep cls cf !st e in
-          st := s';
-          match o with
-          | Some (ODelivered (l, p)) -> res := Some ("ok", p, hex_of_bytes (payload_of l), j)
-          | Some (OTimeout p) -> res := Some ("timeout", p, "-", j)
-          | Some (OStopped p) -> res := Some ("stopped", p, "-", j)
-          | Some (OBadLine p) -> res := Some ("bad", p, "-", j)
-          | None -> ()
-        end in
-      for j = 0 to int_of_string horizon do
-        if j > 0 then feed j ETick;
-        List.iter (fun (_, k, h) ->
-            feed j (match k with
-                | 'C' -> ECall | 'A' -> EArrive (bytes_of_hex h) | 'P' -> EPause | 'R' -> EResume
-                | 'S' -> EStop | _ -> failwith "kind")) (events_at sched j)
-      done;
-      let pred = match !res with
-        | None -> ("none", false, "-", -1)
-        | Some r -> r in
-      let (pc, pp, pl, pj) = pred in
-      let pred_s = Printf.sprintf "%s:%s:%s:%d" pc (str_of_bool pp) pl (pj * u) in
-      (match String.split_on_char ':' measured with
+      let hticks = int_of_string horizon * u in
+      (* the run at 1 ms resolution with sleeps [sl] ms longer than written (0, or more when the machine is busy and every
+         sleep of the chain ends late) *)
+      let sim (sl, cl) =
+        let cf0 = cfg_of (n_of_int 1) (z_of_int (int_of_string tmo)) (n_of_int (int_of_string proto)) in
+        let cf = pause_stretch cf0 sl in
+        let timed = List.map (fun (sl0, k, h) -> ((if k = 'C' then sl0 * u + cl else sl0 * u), k, h)) sched in
+        let st = ref (rinit : n list rstate) in
+        let res = ref None in
+        let feed j e =
+          if !res = None then begin
+            let (s', o) = rstep cls cf !st e in
+            st := s';
+            match o with
+            | Some (ODelivered (l, p)) -> res := Some ("ok", p, hex_of_bytes (payload_of l), j)
+            | Some (OTimeout p) -> res := Some ("timeout", p, "-", j)
+            | Some (OStopped p) -> res := Some ("stopped", p, "-", j)
+            | Some (OBadLine p) -> res := Some ("bad", p, "-", j)
+            | None -> ()
+          end in
+        for j = 0 to hticks do
+          if j > 0 then feed j ETick;
+          List.iter (fun (_, k, h) ->
+              feed j (match k with
+                  | 'C' -> ECall | 'A' -> EArrive (bytes_of_hex h) | 'P' -> EPause | 'R' -> EResume
+                  | 'S' -> EStop | _ -> failwith "kind")) (events_at timed j)
+        done;
+        match !res with None -> ("none", false, "-", -1) | Some r -> r in
+      let show (pc, pp, pl, pj) = Printf.sprintf "%s:%s:%s:%d" pc (str_of_bool pp) pl pj in
+      (* the schedule was run several times ("|"-separated observations): one of them has to be explained *)
+      let ok (pc, pp, pl, pj) m = match String.split_on_char ':' m with
        | [mc; mp; ml; mms] ->
-         let dt = abs (int_of_string mms - pj * u) in
-         if mc = pc && (mc = "none" || (mp = str_of_bool pp && ml = pl && dt <= int_of_string tol))
-         then "match" else "pred=" ^ pred_s
-       | _ -> "pred=" ^ pred_s)
+         let dt = abs (int_of_string mms - pj) in
+         mc = pc && (mc = "none" || (mp = str_of_bool pp && ml = pl && dt <= int_of_string tol))
+       | _ -> false in
+      let obs = String.split_on_char '|' measured in
+      if List.exists (fun v -> let p = sim v in List.exists (ok p) obs) pause_variants then "match"
+      else "pred=" ^ show (sim (0, 0))
     | _ -> "?args");
   register "pm_gate" (function [u; proto; horizon; sched; measured; tol] ->
       let u = int_of_string u in
-      let cf = cfg_of (n_of_int u) (z_of_int 1) (n_of_int (int_of_string proto)) in
       let sched = parse_sched sched in
-      let st = ref { s_pausing = false; s_stopped = false; s_ph = SIdle } in
-      let keeps = ref 0 in
-      let res = ref None in
-      let called = ref false in
-      let feed j e =
-        if !res = None then begin
-          let (s', ws) = sstep cf !st e in
-          st := s';
-          List.iter (function
-              | WKeep -> incr keeps
-              | WStopErr -> res := Some ("stopped", j)
-              | WFrame -> ()) ws;
-          if !res = None && !called && s'.s_ph = SPassed then res := Some ("ok", j)
-        end in
-      for j = 0 to int_of_string horizon do
-        if j > 0 then feed j STick;
-        List.iter (fun (_, k, _) ->
-            (match k with 'C' -> called := true | _ -> ());
-            feed j (match k with
-                | 'C' -> SCall | 'P' -> SPauseEv | 'R' -> SResumeEv | 'S' -> SStopEv | _ -> failwith "kind"))
-          (events_at sched j)
-      done;
-      let (pc, pj) = match !res with None -> ("none", -1) | Some r -> r in
-      let pred_s = Printf.sprintf "%s:%d:%d" pc !keeps (pj * u) in
-      (match String.split_on_char ':' measured with
+      let hticks = int_of_string horizon * u in
+      let sim (sl, cl) =
+        let cf0 = cfg_of (n_of_int 1) (z_of_int 1) (n_of_int (int_of_string proto)) in
+        let cf = pause_stretch cf0 sl in
+        let timed = List.map (fun (sl0, k, h) -> ((if k = 'C' then sl0 * u + cl else sl0 * u), k, h)) sched in
+        let st = ref { s_pausing = false; s_stopped = false; s_ph = SIdle } in
+        let keeps = ref 0 in
+        let keeps_at = Array.make (hticks + 1) 0 in
+        let res = ref None in
+        let called = ref false in
+        let feed j e =
+          if !res = None then begin
+            let (s', ws) = sstep cf !st e in
+            st := s';
+            List.iter (function
+                | WKeep -> incr keeps
+                | WStopErr -> res := Some ("stopped", j)
+                | WFrame -> ()) ws;
+            if !res = None && !called && s'.s_ph = SPassed then res := Some ("ok", j)
+          end in
+        for j = 0 to hticks do
+          if j > 0 then feed j STick;
+          List.iter (fun (_, k, _) ->
+              (match k with 'C' -> called := true | _ -> ());
+              feed j (match k with
+                  | 'C' -> SCall | 'P' -> SPauseEv | 'R' -> SResumeEv | 'S' -> SStopEv | _ -> failwith "kind"))
+            (events_at timed j);
+          keeps_at.(j) <- !keeps
+        done;
+        let (pc, pj) = match !res with None -> ("none", -1) | Some r -> r in
+        (pc, !keeps, pj, keeps_at) in
+      let show (pc, k, pj, _) = Printf.sprintf "%s:%d:%d" pc k pj in
+      let ok (pc, k, pj, keeps_at) m = match String.split_on_char ':' m with
        | [mc; mk; mms] ->
-         let dt = abs (int_of_string mms - pj * u) in
-         if mc = pc && int_of_string mk = !keeps && (mc = "none" || dt <= int_of_string tol)
-         then "match" else "pred=" ^ pred_s
-       | _ -> "pred=" ^ pred_s)
+         let dt = abs (int_of_string mms - pj) in
+         (* still in the gate at the end of the window: the last keep-alive may fall on either side of its end *)
+         let late = ref false in
+         for j = max 0 (hticks - int_of_string tol) to hticks do if keeps_at.(j) = int_of_string mk then late := true done;
+         mc = pc && (if mc = "none" then !late else int_of_string mk = k && dt <= int_of_string tol)
+       | _ -> false in
+      let obs = String.split_on_char '|' measured in
+      if List.exists (fun v -> let p = sim v in List.exists (ok p) obs) pause_variants then "match"
+      else "pred=" ^ show (sim (0, 0))
     | _ -> "?args")
 
 (* pc_sim T SL GL n W P events : runs the composition with the real reader machines (cstep) and the
@@ -135,3 +164,174 @@ let () =
       match Hashtbl.find_opt Util.table "pc_sim" with
       | Some f -> let r = f args in if r = "agree:0" || r = "agree:1" then "agree" else r
       | None -> "?")
+
+(* ---------- download direction and the final-ack loop (Model/PauseDown.v) ---------- *)
+
+(* pd_sim T SL GL n W P events : the download composition built from the reader machine (ydstep) and its
+   abstraction (ystep) side by side, as pc_sim does for the upload. *)
+let () =
+  register "pd_sim" (function [t; sl; gl; n; w; p; evs] ->
+      let ni s = nat_of_int (int_of_string s) in
+      let cf = { cT = ni t; cSL = ni sl; cGL = ni gl; cP3 = true } in
+      let n = ni n and w = ni w and p = ni p in
+      let s = ref (ydinit n) and a = ref (yinit n) in
+      let res = ref "" in
+      String.iteri (fun i ch ->
+          if !res = "" then begin
+            let x = match ch with
+              | 'T' -> YTick | 'P' -> YPause | 'R' -> YResume | 'c' -> YPSCall | 'w' -> YPSWrite
+              | 'u' -> YPSPush | 'a' -> YPATake | 'd' -> YDCall | 'k' -> YKTake | 'g' -> YKCall | 's' -> YKWrite
+              | _ -> failwith "ev" in
+            match ydstep cf n w p !s x, ystep cf n w p !a x with
+            | None, None -> ()
+            | Some s', Some a' ->
+              (* the abstraction reports an error as soon as a timer of our reader expires; the reader machine
+                 may still retry that read (a pause began in it): the comparison ends at the first abstract error *)
+              if a'.yBad then res := "agree"
+              else if yabs s' = a' then (s := s'; a := a')
+              else res := Printf.sprintf "mismatch@%d" i
+            | Some _, None -> res := Printf.sprintf "abstract-disabled@%d" i
+            | None, Some _ -> res := Printf.sprintf "concrete-disabled@%d" i
+          end) evs;
+      if !res = "" then "agree" else !res
+    | _ -> "?args")
+
+(* pd_down unit_ms timeout_s horizon schedule measured tol_ms
+     our side of a download under real time: the REAL pipelineRecvData + pipelineSendAck against the model
+     (data reader = the reader machine inside ydstep, acker = its gate; after the finish frame the acker's
+     final loop = vstep).
+     schedule = slot:kind,...  kinds A (a DATA frame arrives) F (the empty finish frame arrives) P R V (disk has everything)
+     measured = ms:class,...   classes K ("#SUCC:=") A ("#SUCC:len/step") G ("#SUCC:step", step < size) Z (step = size)
+     result "match" when the model writes the same lines in the same order, each within tol_ms. *)
+type pd_phase = PdData of dstate | PdFinal of vst
+
+let () =
+  register "pd_down" (function [u; tmo; horizon; sched; measured; outcome; tol] ->
+      let u = int_of_string u in
+      let sched = parse_sched sched in
+      let hticks = int_of_string horizon * u in
+      let nframes = List.length (List.filter (fun (_, k, _) -> k = 'A' || k = 'F') sched) in
+      let has_f = List.exists (fun (_, k, _) -> k = 'F') sched in
+      let n = nat_of_int (if has_f then nframes else nframes + 1) in
+      let big = nat_of_int 1000000 in
+      let w = nat_of_int 1000 in
+      (* one run at 1 ms resolution, every sleep lasting [sl] ms longer than written (the poll wait twice that) *)
+      let sim sl =
+        let cf0 = cfg_of (n_of_int 1) (z_of_int (int_of_string tmo)) (n_of_int 3) in
+        let cf = pause_stretch cf0 sl in
+        let fp = nat_of_int (int_of_n Consts.pause_final_ack_poll_ms + 2 * sl) in
+        let init = { (ydinit n) with dPS = CSDone } in
+        let ph = ref (PdData init) in
+        let saved = ref false in
+        let arrived = ref 0 in
+        let fdone = ref false in
+        let out = ref [] in            (* (ms, class) newest first *)
+        let err = ref "" in
+        let seen = ref 0 in
+        let collect j =
+          match !ph with
+          | PdData s ->
+            let q = s.dPA.queue in
+            let l = List.length q in
+            if l > !seen then
+              List.iteri (fun i x -> if i >= !seen then
+                             out := (j, (match x with WLKeep -> "K" | WLData _ -> "A")) :: !out) q;
+            seen := l
+          | PdFinal v ->
+            let q = v.vPFq in
+            let l = List.length q in
+            if l > !seen then
+              List.iteri (fun i x -> if i >= !seen then
+                             out := (j, (match x with WLKeep -> "K" | WLData O -> "G" | WLData _ -> "Z")) :: !out) q;
+            seen := l in
+        let rec settle j =
+          match !ph with
+          | PdData s ->
+            let try_ev x = match ydstep cf n w big s x with Some s' -> ph := PdData s'; true | None -> false in
+            if try_ev YDCall || try_ev YKTake || try_ev YKCall || try_ev YKWrite then settle j
+            else if !fdone && s.dK = KIdle && s.dKq = [] && List.length s.dDeliv = int_of_nat n then begin
+              collect j;
+              seen := 0;
+              ph := PdFinal { vinit with vPausing = s.dD.core.pausing; vSaved = !saved;
+                                         vPfin = true (* the peer's reader is not part of this run *) };
+              settle j
+            end
+          | PdFinal v ->
+            let try_ev x = match vstep cf fp v x with Some v' -> ph := PdFinal v'; true | None -> false in
+            if try_ev VKCall || try_ev VKWrite then settle j in
+        let apply k =
+          match !ph, k with
+          | PdData s, ('A' | 'F') ->
+            if k = 'F' then fdone := true;
+            ph := PdData (feedD cf s (EArrive (nat_of_int !arrived))); incr arrived
+          | PdData s, 'P' -> (match ydstep cf n w big s YPause with Some s' -> ph := PdData s' | None -> err := "sched")
+          | PdData s, 'R' -> (match ydstep cf n w big s YResume with Some s' -> ph := PdData s' | None -> err := "sched")
+          | PdData _, 'V' -> saved := true
+          | PdFinal v, 'P' -> (match vstep cf fp v VPause with Some v' -> ph := PdFinal v' | None -> err := "sched")
+          | PdFinal v, 'R' -> (match vstep cf fp v VResume with Some v' -> ph := PdFinal v' | None -> err := "sched")
+          | PdFinal v, 'V' -> (match vstep cf fp v VSaved with Some v' -> ph := PdFinal v' | None -> ())
+          | _, _ -> err := "sched" in
+        let failed_at = ref (-1) in
+        let failed () = match !ph with PdData s -> s.dErrD || s.dErrPA | PdFinal v -> v.vBad in
+        for j = 0 to hticks do
+          if !err = "" && !failed_at < 0 then begin
+            if j > 0 then begin
+              match !ph with
+              | PdData s -> (match ydstep cf n w big s YTick with Some s' -> ph := PdData s' | None -> err := "tick-disabled")
+              | PdFinal v -> (match vstep cf fp v VTick with Some v' -> ph := PdFinal v' | None -> err := "tick-disabled")
+            end;
+            if failed () then failed_at := j
+            else begin
+              settle j; collect j;
+              if j mod u = 0 then
+                List.iter (fun (_, k, _) -> if !err = "" then begin apply k; settle j; collect j end) (events_at sched (j / u))
+            end
+          end
+        done;
+        let model_outcome =
+          if !failed_at >= 0 then "timeout"
+          else match !ph with PdFinal v when v.vK = K2Done -> "succ" | _ -> "running" in
+        (!err, List.rev !out, model_outcome, !failed_at) in
+      let show (err, pred, oc, fa) =
+        if err <> "" then "err:" ^ err
+        else (if pred = [] then "-" else String.concat "," (List.map (fun (j, c) -> Printf.sprintf "%d:%s" j c) pred))
+             ^ Printf.sprintf ";%s:%d" oc fa in
+      let tol = int_of_string tol in
+      (* lines close to the end of the window may fall on either side of it *)
+      let rec cmp meas pred = match meas, pred with
+        | [], [] -> true
+        | (ms, c) :: m', (j, c') :: p' -> c = c' && abs (ms - j) <= tol && cmp m' p'
+        | [], rest -> List.for_all (fun (j, _) -> j + tol >= hticks) rest
+        | rest, [] -> List.for_all (fun (ms, _) -> ms + tol >= hticks) rest in
+      (* the schedule was run several times ("|"-separated observations): one of them has to be explained *)
+      let ok_attempt (err, pred, model_outcome, failed_at) m oc =
+        let meas = List.map (fun it -> match String.split_on_char ':' it with
+            | [ms; c] -> (int_of_string ms, c) | _ -> failwith "measured") (split_on ',' m) in
+        let outcome_ok = match String.split_on_char ':' oc with
+          | [o; ms] -> o = model_outcome && (o <> "timeout" || abs (int_of_string ms - failed_at) <= tol)
+          | _ -> false in
+        err = "" && outcome_ok && cmp meas pred in
+      let ms_l = String.split_on_char '|' measured and oc_l = String.split_on_char '|' outcome in
+      if List.length ms_l = List.length oc_l
+         && List.exists (fun sl -> let p = sim sl in List.exists2 (ok_attempt p) ms_l oc_l) pause_stretches
+      then "match" else "pred=" ^ show (sim 0)
+    | _ -> "?args")
+
+(* pp_probe acks : the acknowledgement bookkeeping of pipelineRecvAck, starting in the probing phase.
+     acks = one letter per acknowledgement: g (grows) G (grows, marked pause) n (does not grow) N (does not, marked pause)
+     result = released flags and probing-phase flags, e.g. "11,10" *)
+let () =
+  register "pp_probe" (function [acks] ->
+      let acks = if acks = "-" then "" else acks in
+      let l = List.init (String.length acks) (fun i -> match acks.[i] with
+          | 'g' -> (false, true) | 'G' -> (true, true) | 'n' -> (false, false) | 'N' -> (true, false) | _ -> failwith "ack") in
+      let rel = ref [] and ini = ref [] in
+      let st = ref pra_init0 in
+      List.iter (fun pg ->
+          let (st', rs) = pra_run !st [pg] in
+          st := st';
+          rel := (match rs with [r] -> r | _ -> false) :: !rel;
+          ini := st'.pra_init :: !ini) l;
+      let s l = String.concat "" (List.rev_map str_of_bool l) in
+      (if acks = "" then "-" else s !rel) ^ "," ^ (if acks = "" then "-" else s !ini)
+    | _ -> "?args")
